@@ -501,13 +501,13 @@ func leafTag(lf Leaf) string {
 		if lf.Str {
 			return "sobj"
 		}
-		return "obj"
+		return "obj:" + lf.PT
 	case LOff:
-		return "off"
+		return "off:" + lf.PT
 	case LLen:
-		return "len"
+		return "len:" + lf.PT
 	case LCap:
-		return "cap"
+		return "cap:" + lf.PT
 	}
 	return ""
 }
@@ -662,6 +662,45 @@ func sameIdx(i, j *Term) bool {
 	return bi == bj && ci.Cmp(cj) == 0
 }
 
+// Allocation epochs (per VC): every change of the allocation counter starts a new epoch.
+// objBound[key] = e means the term is an object id known to be below the allocation
+// counter of epoch e (a parameter, a pointer loaded from memory, a call result);
+// allocEpoch[key] = e means the term is the id of an object allocated in epoch e, i.e. it
+// equals the counter value of that epoch. The counter is monotone along every path, so
+// bound <= epoch implies the two ids differ.
+var (
+	objBound   map[string]int
+	allocEpoch map[string]int
+	memEpoch   map[string]int // memory version name -> epoch in which it was created
+	curEpoch   int
+)
+
+// boundFromCell: a reference read from cell term c (select (select M obj) idx) existed when
+// memory version M was created, so it is below the allocation counter of that epoch.
+func boundFromCell(c *Term) (int, bool) {
+	if c.Op == "select" && len(c.Args) == 2 && c.Args[0].Op == "select" {
+		m := c.Args[0].Args[0]
+		if m.Op == "sym" {
+			if e, ok := memEpoch[m.Name]; ok {
+				return e, true
+			}
+		}
+	}
+	return 0, false
+}
+
+func noteObjBound(t *Term) {
+	if t == nil || t.IntConst() != nil || objBound == nil {
+		return
+	}
+	k := t.Key()
+	if _, ok := objBound[k]; !ok {
+		if _, isAlloc := allocEpoch[k]; !isAlloc {
+			objBound[k] = curEpoch
+		}
+	}
+}
+
 // dynBase names the symbol that is >= every pre-existing object id (set per VC).
 var dynBase string
 
@@ -673,6 +712,24 @@ func distinctIdx(i, j *Term) bool {
 	bj, cj := normIdx(j)
 	if bi == bj {
 		return ci.Cmp(cj) != 0
+	}
+	if objBound != nil {
+		ki, kj := i.Key(), j.Key()
+		if b, ok := objBound[ki]; ok {
+			if e, ok2 := allocEpoch[kj]; ok2 && b <= e {
+				return true
+			}
+		}
+		if b, ok := objBound[kj]; ok {
+			if e, ok2 := allocEpoch[ki]; ok2 && b <= e {
+				return true
+			}
+		}
+		if e1, ok := allocEpoch[ki]; ok {
+			if e2, ok2 := allocEpoch[kj]; ok2 && e1 != e2 {
+				return true
+			}
+		}
 	}
 	if dynBase != "" {
 		lim := big.NewInt(firstDynObj)
